@@ -219,10 +219,40 @@ fn eval_case() -> impl Strategy<Value = ExecCase> {
         })
 }
 
+/// Control flow far from the start of a long program: a forward jump over `pad` Halt ops, then a loop and a backward
+/// jump whose targets lie beyond op index `pad` (around 2^15, 2^16 and beyond: the program counter is a full usize).
+#[derive(Clone, Debug, Hash, serde::Serialize, serde::Deserialize)]
+pub struct FarLoop {
+    pub pad: usize,
+    pub count: i64,
+    pub up: bool,
+}
+
+fn oracle_far(f: &FarLoop, obs: &mut Obs) -> Result<(), Violation> {
+    let mut prog = vec![PUSH(f.pad as i64 + 1), PUSH(1), JMPIF];
+    prog.extend(std::iter::repeat(HLT).take(f.pad));
+    // a counted loop that logs its counter, then a two-round backward-jump loop over a memory cell
+    prog.extend([PUSH(f.count), PUSH(f.up as i64), REP, REPC, REPE, PUSH(7)]);
+    prog.extend([PUSH(1), ALOC, POP, PUSH(2), PUSH(0), STO]);
+    let start = prog.len();
+    prog.extend([PUSH(9), PUSH(0), LOD, PUSH(1), SUB, DUP, PUSH(0), STO, PUSH(0), GT]);
+    let jmp_at = prog.len() + 2;
+    prog.extend([PUSH(start as i64 - jmp_at as i64), SWAP, JMPIF, PUSH(8)]);
+    let case = ExecCase::simple(prog);
+    oracle(&case, obs)?;
+    obs.label("far-loop");
+    obs.nontrivial();
+    Ok(())
+}
+
+fn far_loop() -> impl Strategy<Value = FarLoop> {
+    (prop_oneof![2 => 65_520usize..65_560, 1 => 32_750usize..32_790, 1 => 9_990usize..10_010, 1 => 0usize..200_000], 1i64..5, any::<bool>()).prop_map(|(pad, count, up)| FarLoop { pad, count, up })
+}
+
 pub fn property() -> Property {
     Property {
         id: "C09",
-        rule: "generated programs whose bodies log their own execution (distinct tags, RepeatCounter), so the final stack is the trace: JumpIf with distances {0,±1,±2,to 0,to last,to len,len+1,before 0,MIN,MAX} x conditions {0,1,2,-1}; Repeat with counts {MIN,-1,0,1,2,3,7,MAX}, both directions, invalid directions, nesting 1..4, repeat stack at 4093..4096(+3), stray RepeatEnd/RepeatCounter, pre-advanced counters; Halt/HaltIf/PanicIf at every position; structured nested programs; eval on final tops {0,1,2,-1,empty}. Compared with RefVm after every op and with exec_ops/eval_ops at the end. Non-trivial = a taken control transfer, a loop that iterates, a halt, or a failing control op.",
+        rule: "generated programs whose bodies log their own execution (distinct tags, RepeatCounter), so the final stack is the trace: JumpIf with distances {0,±1,±2,to 0,to last,to len,len+1,before 0,MIN,MAX} x conditions {0,1,2,-1}; Repeat with counts {MIN,-1,0,1,2,3,7,MAX}, both directions, invalid directions, nesting 1..4, repeat stack at 4093..4096(+3), stray RepeatEnd/RepeatCounter, pre-advanced counters; Halt/HaltIf/PanicIf at every position; structured nested programs; loops and backward jumps whose targets lie beyond op index 10000 / 2^15 / 2^16 / up to 200000; eval on final tops {0,1,2,-1,empty}. Compared with RefVm after every op and with exec_ops/eval_ops at the end. Non-trivial = a taken control transfer, a loop that iterates, a halt, or a failing control op.",
         assumptions: vec![
             "JumpIf with condition 0 never jumps and never fails, whatever the distance (the statement lists only non-0/1 conditions as errors)",
             "a ComputeEnd executed outside a compute context is unspecified (case skipped)",
@@ -248,6 +278,7 @@ pub fn property() -> Property {
                 oracle,
             ),
             prop_sub("cf.eval", 24_000, 400_000, |_| eval_case(), oracle_eval),
+            prop_sub("cf.far_loops", 240, 2_400, |_| far_loop(), oracle_far),
         ],
     }
 }
